@@ -256,7 +256,87 @@ func TestPartitionStress(t *testing.T) {
 		}
 		w.write(J{"t": "final", "trace": k, "id": 0, "op": J{"op": ""}, "ok": true, "res": J{"ok": true}, "obs": J{"limit": limit, "busy": busy, "ob": ob}})
 	}
-	partitionRemoveRace(t, w, n)
+	k := partitionRemoveRace(t, w, n)
+	partitionShareRace(t, w, k)
+}
+
+// partitionShareRace lets a SetLimit that changes the total race an AddPartition, many times over: whichever takes effect
+// first, once both have returned every registered partition's share is computed from the limit in force. Every history
+// whose shares disagree with the limit, and a sample of the others, goes to PartitionLin (final observation with shares).
+func partitionShareRace(t *testing.T, w *ndWriter, first int) {
+	k := first
+	iters := envInt("VERIF_SHARE_RACES", 3000)
+	bad := 0
+	for _, kind := range []string{"lookup", "predicate"} {
+		cfg := partCfg{Kind: kind, Den: 16, Limit: 10, Objs: map[string]partObjCfg{
+			"p0": {Name: "a", Num: 4, Match: []string{"a"}, Built: 1},
+			"p1": {Name: "b", Num: 2, Match: []string{"b", "a"}, Built: 1},
+			"p2": {Name: "z", Num: 8, Match: []string{"z"}, Built: 1},
+		}, Init: []string{"p0", "p1"}, Variant: map[string]string{"unknown": "contract", "add": "contract"}}
+		for it := 0; it < iters; it++ {
+			s, err := newPartSUT(cfg)
+			if err != nil {
+				t.Fatal(err)
+			}
+			v := 20 + 10*(it%5)
+			var seq int64
+			var mu sync.Mutex
+			var events []J
+			ev := func(e J) {
+				mu.Lock()
+				e["seq"] = atomic.AddInt64(&seq, 1)
+				events = append(events, e)
+				mu.Unlock()
+			}
+			start := make(chan struct{})
+			var wg sync.WaitGroup
+			wg.Add(2)
+			go func() {
+				defer wg.Done()
+				<-start
+				ev(J{"t": "b", "id": 1, "op": J{"op": "set", "v": v}, "ok": true, "res": J{"ok": true}})
+				s.strat().SetLimit(v)
+				ev(J{"t": "e", "id": 1, "op": J{"op": ""}, "ok": true, "res": J{"ok": true}})
+			}()
+			go func() {
+				defer wg.Done()
+				<-start
+				ev(J{"t": "b", "id": 2, "op": J{"op": "add", "obj": "p2"}, "ok": true, "res": J{"ok": true}})
+				var ok bool
+				if s.lookup != nil {
+					ok = s.lookup.AddPartition("z", s.lobj["p2"])
+				} else {
+					ok = s.pred.AddPartition(s.pobj["p2"])
+				}
+				ev(J{"t": "e", "id": 2, "op": J{"op": ""}, "ok": ok, "res": J{"ok": ok}})
+			}()
+			close(start)
+			wg.Wait()
+			limit, busy := s.totals()
+			share := func(num int) int {
+				x := (limit*num + 15) / 16
+				if x < 1 {
+					x = 1
+				}
+				return x
+			}
+			bl := J{"p0": s.objLimit("p0"), "p1": s.objLimit("p1"), "p2": s.objLimit("p2")}
+			mismatch := bl["p0"] != share(4) || bl["p1"] != share(2) || bl["p2"] != share(8)
+			if mismatch {
+				bad++
+			}
+			if mismatch && bad <= 20 || it%300 == 0 {
+				w.write(J{"t": "reset", "trace": k, "cfg": cfg, "id": 0, "op": J{"op": ""}, "ok": true, "res": J{"ok": true}})
+				for _, e := range events {
+					e["trace"] = k
+					w.write(e)
+				}
+				w.write(J{"t": "final", "trace": k, "id": 0, "op": J{"op": ""}, "ok": true, "res": J{"ok": true},
+					"obs": J{"limit": limit, "busy": busy, "ob": J{"p0": 0, "p1": 0, "p2": 0}, "bl": bl}})
+				k++
+			}
+		}
+	}
 }
 
 // partitionRemoveRace appends deterministic real-time histories: a TryAcquire is parked inside the predicate of the
@@ -264,7 +344,7 @@ func TestPartitionStress(t *testing.T) {
 // strategy's mutex while predicates run, so the removal waits), then the acquirer is let go. Whatever the order the two
 // take effect in, what the removal saw (the in-flight count of each partition it removed) and what the acquirer got
 // must be explained by one of the two serial orders (PartitionLin).
-func partitionRemoveRace(t *testing.T, w *ndWriter, first int) {
+func partitionRemoveRace(t *testing.T, w *ndWriter, first int) int {
 	k := first
 	for rep := 0; rep < 6; rep++ {
 		cfg := partCfg{Kind: "predicate", Den: 16, Limit: 1 + rep%3, Objs: map[string]partObjCfg{
@@ -335,4 +415,5 @@ func partitionRemoveRace(t *testing.T, w *ndWriter, first int) {
 		w.write(J{"t": "final", "trace": k, "id": 0, "op": J{"op": ""}, "ok": true, "res": J{"ok": true}, "obs": J{"limit": limit, "busy": busy, "ob": ob}})
 		k++
 	}
+	return k
 }
